@@ -628,12 +628,20 @@ def check_c10(tier, t0):
     # ---- fault classes against the real compile_code, in supervised long-lived workers
     rnd = random.Random(seed() + 10)
     ins = faults.fault_inputs(rnd, tier, corpus.repo_programs(REPO))
-    nw = 10
     warm = ("warmup", "warmup", faults.GOOD, None)
-    chunks = [[warm] + ins[k::nw] for k in range(nw)]
+    # inputs that start helper processes run a few at a time: a helper's import must fit into the implementation's 1 s
+    # limit for the constexpr body to run at all (a body that ignores SIGTERM only matters once it runs)
+    cxin = [i for i in ins if i[0] == "constexpr"]
+    other = [i for i in ins if i[0] != "constexpr"]
+    nw = 10
+    chunks = [[warm] + other[k::nw] for k in range(nw)]
     ctx = mp.get_context("fork")
     with ctx.Pool(nw, initializer=cw._init) as p:
         res = p.map(faults.run_calls, [{"inputs": c, "watchdog": 90} for c in chunks])
+    cchunks = [[warm] + cxin[k::3] for k in range(3)]
+    with ctx.Pool(3, initializer=cw._init) as p:
+        res += p.map(faults.run_calls, [{"inputs": c, "watchdog": 45} for c in cchunks])
+    chunks = chunks + cchunks
     recs, srcs = [], []
     for c, rr in zip(chunks, res):
         for inp, r in zip(c[1:], rr[1:]):
